@@ -23,6 +23,8 @@ ST_ = "magpylib/_src/style.py"
 TU_ = "magpylib/_src/display/traces_utility.py"
 TMF = FD + "field_BH_triangularmesh.py"
 MUTANTS = [
+    ("C11", "copy-restores-parent-only-on-success", BG, "            try:\n                obj_copy = deepcopy(self)\n            finally:\n                self._parent = parent\n",
+     "            obj_copy = deepcopy(self)\n            self._parent = parent\n", "red"),
     ("C04", "l2-sensor-rotation-forward", FWB, "Bpart_flat_rot = sens_orient.inv().apply(Bpart_flat)", "Bpart_flat_rot = sens_orient.apply(Bpart_flat)", "red"),
     ("C08", "l2-reset-forgets-orientation", FWB, "            obj._orientation = obj._orientation[:m0]\n", "            pass\n", "red"),
     ("C06", "l2-tile-first-pose", FWB, "tile_pos = np.tile(obj._position[-1], (m_tile, 1))", "tile_pos = np.tile(obj._position[0], (m_tile, 1))", "red"),
